@@ -1,4 +1,5 @@
 """C03 — hash-chain and calendar arithmetic equals the KSI chain formula for every chain."""
+import hashlib
 import os
 import sys
 
@@ -51,6 +52,34 @@ def gen(rng, tier):
         if i % 6 == 0:
             yield "aggc %d %s %s %d %d" % (algo, G.hx(G.imprint(rng)), ls, rng.choice([0, 0, 3, 255, 256, 300]),
                                            rng.choice([0, 1, 7, 255]))
+    # 1a. the same chain object asked three times: fine, out of range, fine again / three different levels
+    for i in range(60 if not big else 600):
+        n = rng.choice([1, 2, 3, 5])
+        ls = ";".join(link(rng, lc=rng.choice([0, 0, 1])) for _ in range(n))
+        a, b = rng.choice([0, 1, 3, 7]), rng.choice([0, 2, 5])
+        for trio in ((a, rng.choice([256, 300, 1000]), a), (a, b, a), (a, 255, b), (b, a, 256)):
+            yield "agg3 %d %s %s %d %d %d" % (rng.choice(G.SUPPORTED), G.hx(G.imprint(rng)), ls, trio[0], trio[1], trio[2])
+    # 1c. RIPEMD-160 (the driver has no implementation of it): the reference root is computed here with Python's
+    for i in range(40 if not big else 400):
+        n = rng.choice([1, 2, 3, 6])
+        start = rng.choice([0, 0, 2])
+        inp = G.imprint(rng, rng.choice([0, 1, 2]))
+        links, level, cur = [], start, inp
+        for _ in range(n):
+            d, lc, sib = rng.choice("LR"), rng.choice([0, 0, 1]), G.imprint(rng, rng.choice([1, 2, 0]))
+            links.append("%s:%s:i:%s" % (d, "x" if lc == 0 else str(lc), G.hx(sib)))
+            level += lc + 1
+            cur = bytes([2]) + hashlib.new("ripemd160", (cur + sib if d == "L" else sib + cur) + bytes([level])).digest()
+        yield "aggr 2 %d %s %s %d %s" % (start, G.hx(inp), ";".join(links), level, G.hx(cur))
+    # 1d. links that were given two kinds of sibling through the setters
+    for i in range(30 if not big else 300):
+        n = rng.choice([1, 2, 4])
+        ls = [link(rng, lc=0) for _ in range(n)]
+        k = rng.randrange(n)
+        ls[k] = "%s:x:%s:%s" % (rng.choice("LR"), rng.choice("xy"), G.hx(G.imprint(rng)) if False else "")
+        kind = rng.choice("xy")
+        ls[k] = "%s:x:%s:%s" % (rng.choice("LR"), kind, G.hx(G.imprint(rng) if kind == "x" else G.legacy_id(rng)))
+        yield "aggx %d 0 %s %s" % (rng.choice(G.SUPPORTED), G.hx(G.imprint(rng)), ";".join(ls))
     # 1b. level boundary, exhaustively around 255: start + corrections + count
     for start in ([0, 250, 253, 254, 255] if not big else range(240, 256)):
         for lc in (0, 1, 2, 4, 5, 254, 255, 256, 2**32, 2**32 + 3, 0x7fffffff, 2**64 - 1):
